@@ -16,11 +16,19 @@ def jobs(tier, seed):
                     "vyper.codegen.function_definitions.common:get_nonreentrant_lock", "vyper.codegen.return_:make_return_stmt",
                     "vyper.codegen_venom.context:VenomCodegenContext.emit_nonreentrant_lock", "vyper.codegen_venom.context:VenomCodegenContext.emit_nonreentrant_unlock",
                     "vyper.semantics.types.function:ContractFunctionT.from_FunctionDef"], "engine": "GenVC"})
+    from vverif.contracts import genvc_kernels as GK
+
+    for evm in ("cancun", "shanghai", "paris"):
+        J.append({"id": f"C09/G/common.get_nonreentrant_lock[{evm}]", "fn": "vverif.contracts.genvc_kernels:job_lock", "args": (evm,), "functions": GK.FUNCS_LOCK, "engine": "GenVC"})
     return J
 
 
 def replay(o):
     k = (o.get("replay") or {}).get("kind")
+    from vverif.contracts import genvc_kernels as GK
+
+    if k in GK.REPLAY:
+        return GK.REPLAY[k](o)
     if k in TS.REPLAY:
         return TS.REPLAY[k](o)
     return {"reproduced": None, "detail": "no native replay"}
